@@ -1,7 +1,9 @@
 """C08 - forward schedules are tight; dates encode used capacity.   (DESIGN.md section 5, C08)
 
 Decided: shape of the mechanisms (first fit, greedy amount, encoding formulas by rational normal form, traversal order,
-selector use, project bound for linked tasks).  Not decided: that they yield fully booked intervals for every interleaving.
+selector use, project bound for linked tasks, the fill starts from the start the search found - not from the release date handed
+to the search -, leaf defaults replace only `None` - an explicit estimate of 0 means no work).  Not decided: that they yield fully
+booked intervals for every interleaving; a resource that reports a rounded calendar value (C17's / C03's finding, undecided here).
 """
 from __future__ import annotations
 
